@@ -626,11 +626,18 @@ RECURSIVE RunEffects(_, _, _, _)
 RunEffects(s, eff, i, ctx) ==
   IF ~Ok(s) \/ i > Len(eff) THEN s ELSE
   LET e == eff[i]
-      s1 == CASE e.e = "set"  -> VarWrite(s, e.v, e.op, e.x)
+      s1 == CASE e.e = "set"  -> IF e.v \in s.vhandles THEN VarWrite(s, e.v, e.op, e.x) ELSE s
               [] e.e = "read" -> [s EXCEPT !.readLog = Append(@, [o |-> e.o, r |-> ObsRead(s, e.o)])]
-              [] e.e = "sub"  -> Subscribe(s, e.o, <<>>)
+              [] e.e = "sub"  -> IF s.oclones[e.o] > 0 THEN Subscribe(s, e.o, <<>>) ELSE s
               [] e.e = "unsub" -> Unsubscribe(s, e.o, e.o, e.t)
               [] e.e = "disallow" -> DisallowObs(s, e.o)
+              [] e.e = "obs_drop" ->    \* the closure owned the handle and drops it (public.rs:155-174)
+                   LET s0 == [s EXCEPT !.oclones[e.o] = IF @ > 0 THEN @ - 1 ELSE 0] IN
+                   IF s.oclones[e.o] > 0 /\ s0.oclones[e.o] = 0 THEN DisallowObs(s0, e.o) ELSE s0
+              [] e.e = "drop_var" ->    \* the closure owned the last Var handle and drops it
+                   IF e.v \in s.vhandles
+                   THEN [s EXCEPT !.vhandles = @ \ {e.v}, !.handles = @ \ {e.v}, !.deadVars = Append(@, e.v)]
+                   ELSE s
               [] e.e = "stabilise" -> Fail(s, "panic:status")   \* assert_eq!(status, NotStabilising)
               [] e.e = "panic" -> IF ctx = 0 \/ s.runs[ctx] = e.at THEN Fail(s, "panic:user") ELSE s
   IN RunEffects(s1, eff, i + 1, ctx)
@@ -1027,7 +1034,9 @@ StabiliseEndA(s) ==
   IN IF ~Ok(s3) THEN s3 ELSE
      [s3 EXCEPT !.has = <<>>,
                 !.inHas = [n \in 1..s3.n |-> IF n \in SeqSet(live) THEN FALSE ELSE s3.inHas[n]],
-                !.runq = runq, !.status = "handlers"]
+                !.runq = runq, !.status = "handlers",
+                \* ghost: who was in use / subscribed when the handlers started to run
+                !.ostateH = s3.ostate, !.osubsH = s3.osubs]
 
 (* OnUpdateHandler::run (node_update.rs:97-126): returns "" (nothing) or the update to deliver *)
 HandlerDecision(prev, u) ==
@@ -1081,7 +1090,7 @@ StabiliseFinish(s) ==
             !.inv = <<>>, !.cutLog = <<>>, !.cbLog = <<>>, !.obsLog = <<>>, !.invLog = <<>>,
             !.readLog = <<>>, !.dlv = <<>>, !.order = <<>>, !.rhsLog = <<>>, !.memoLog = <<>>,
             !.lastRan = [n \in 1..s.n |-> 0], !.lastChg = [n \in 1..s.n |-> 0],
-            !.subsAtBegin = <<>>, !.popped = 0, !.chainFrom = 0, !.running = 0,
+            !.subsAtBegin = <<>>, !.ostateH = <<>>, !.osubsH = <<>>, !.popped = 0, !.chainFrom = 0, !.running = 0,
             !.memos = [i \in 1..Len(s.memos) |->
                          [s.memos[i] EXCEPT !.table = SelectSeq(@, LAMBDA r : Alive(s, r.node))]]]
 
@@ -1113,7 +1122,8 @@ InitState(maxH) ==
    \* ghost
    round |-> 0, inv |-> <<>>, runs |-> <<>>, cutLog |-> <<>>, cbLog |-> <<>>, obsLog |-> <<>>,
    invLog |-> <<>>, readLog |-> <<>>, retLog |-> <<>>, dlv |-> <<>>, order |-> <<>>,
-   rhsLog |-> <<>>, lastRan |-> <<>>, lastChg |-> <<>>, envAtStart |-> <<>>, subsAtBegin |-> <<>>]
+   rhsLog |-> <<>>, lastRan |-> <<>>, lastChg |-> <<>>, envAtStart |-> <<>>, subsAtBegin |-> <<>>,
+   ostateH |-> <<>>, osubsH |-> <<>>]
 
 ApiVar(s, v)   == NewNode(s, [k |-> "var", init |-> v], 0)          \* IncrState::var: Scope::Top
 ApiConst(s, v) == NewNode(s, [k |-> "const", init |-> v], s.curScope)
